@@ -100,39 +100,52 @@ def select_scalar(c):
     c.canary("canary_always_exact", v.f == r.M0(off.z + rr))
 
 
-def _experimental(*a, **k):
-    """Tensor-time select/insert: the VCs mix nonlinear real arithmetic (dt*s) with the ring index algebra and are
-    left undecided by z3 and cvc5 within budget, so these two cases are NOT claimed as proved; they are covered by the
-    bounded stand-in in native/c02.py (scalar/tensor agreement, labelled bounded).  Set PYVC_EXPERIMENTAL=1 to run them."""
-    import os
-
-    if os.environ.get("PYVC_EXPERIMENTAL"):
-        return contract(*a, **k)
-    return lambda fn: fn
-
-
-@_experimental(P, "RecordTensor.select[tensor]", (INF, "RecordTensor.select"))
-def select_tensor(c):
+def _select_tensor(c, layouts):
     N, ptr, dt, s, tau, off, r = _setup(c)
-    layout = c.choice("time_layout", ["squeezed", "trailing_axis"])
+    layout = c.choice("time_layout", layouts)
+    j = None
     if layout == "squeezed":
         time = T(dt.z * s.z, "float", None, None, r.S)
-    else:
+    elif layout == "trailing_axis":
         time = T(lambda t: dt.z * s.z, "float", 1, "last", r.S)
+    else:
+        # L query times per element (what a connection asks for: one delay per output); position j is arbitrary
+        L, j = c.int("L"), c.int("j")
+        c.require(L >= 1, 0 <= j, j < L)
+        sf = c.func("s_at", z3.IntSort(), R)
+        s = SV(sf(j.z))
+        time = T(lambda t: dt.z * sf(t), "float", L, "last", r.S)
     out = c.outcome(r.method("select"), time, interp_model(), tolerance=dt * tau, offset=off)
     rr, on, in_range, cl, fl = _spec_pieces(N, s, tau)
     if out.raised:
         c.ensure("raises_value_error", out.raised == "ValueError")
         return
+    if j is not None:
+        time.f(j.z)  # names position j: instantiates the min/max facts of the range check there
     c.ensure("accepts_only_in_range", in_range)  # an element out of range forces min/max out of range
     v = out.value
-    val = v.f if v.tlen is None else v.at(0)
+    val = v.f if v.tlen is None else v.at(0 if j is None else j.z)
     c.ensure("shape", (v.tlen is None) if layout == "squeezed" else (v.tlen is not None and v.taxis == "last"))
+    if j is not None:
+        c.ensure("one_result_per_query_time", num(v.tlen) == L.z)
     c.ensure("on_grid_exact", z3.Implies(on, val == r.M0(off.z + rr)))
     sample_at = unit_abstract(dt.z * z3.ToReal(cl) - dt.z * s.z, dt.z)
     c.ensure("off_grid_interpolates", z3.Implies(z3.Not(on), val == I_UF(r.M0(off.z + cl), r.M0(off.z + fl), sample_at, dt.z)))
     c.ensure("frame", z3.And(r.ptr == ptr, not r.owner.writes))
-    c.canary("canary_always_exact", val == r.M0(off.z + rr))
+    if j is None:
+        c.canary("canary_always_exact", val == r.M0(off.z + rr))
+    else:
+        c.canary("canary_constant_result", val == 12345)
+
+
+@contract(P, "RecordTensor.select[tensor]", (INF, "RecordTensor.select"))
+def select_tensor(c):
+    _select_tensor(c, ["squeezed", "trailing_axis"])
+
+
+@contract(P, "RecordTensor.select[tensor,many times per element]", (INF, "RecordTensor.select"))
+def select_tensor_many(c):
+    _select_tensor(c, ["trailing_axis_many"])
 
 
 def _insert_post(c, r, N, ptr, dt, s, tau, off, obs, k):
@@ -169,7 +182,7 @@ def insert_scalar(c):
     c.canary("canary_nothing_written", r.M1(k) == r.M0(k))
 
 
-@_experimental(P, "RecordTensor.insert[tensor]", (INF, "RecordTensor.insert"))
+@contract(P, "RecordTensor.insert[tensor]", (INF, "RecordTensor.insert"))
 def insert_tensor(c):
     N, ptr, dt, s, tau, off, r = _setup(c)
     k = c.int("k")
@@ -284,6 +297,11 @@ def roundtrip(c):
 
 _F = INF
 MUTANTS = [
+    dict(file=_F, func="RecordTensor.select", old="torch.where(torch.abs(dt * shiftr - time) <= tolerance, shiftr, shift),", new="torch.where(torch.abs(dt * shiftr - time) < tolerance, shiftr, shift),", contracts=["RecordTensor.select[tensor]"], name="seed C06: tensor-time tolerance test <= -> <"),
+    dict(file=_F, func="RecordTensor.select", old="prev_idx, next_idx = offset.ceil(), offset.floor()", new="prev_idx, next_idx = offset.floor(), offset.ceil()", contracts=["RecordTensor.select[tensor]"], name="tensor select: brackets swapped"),
+    dict(file=_F, func="RecordTensor.select", old="                dt - dt * (shift % 1),\n", new="                dt * (shift % 1),\n", contracts=["RecordTensor.select[tensor]"], name="tensor select: elapsed time measured from the wrong bracket"),
+    dict(file=_F, func="RecordTensor.insert", old="            shift = torch.where(\n                torch.abs(dt * shiftr - time) <= tolerance, shiftr, shift\n            )", new="            shift = torch.where(\n                torch.abs(dt * shiftr - time) < tolerance, shiftr, shift\n            )", contracts=["RecordTensor.insert[tensor]"], name="tensor insert: tolerance test <= -> <"),
+    dict(file=_F, func="RecordTensor.insert", old="            bypass = prev_idx == next_idx\n            prev_exobs = torch.where(bypass, obs, prev_exobs)", new="            bypass = prev_idx == next_idx\n            prev_exobs = torch.where(bypass, prev_exobs, obs)", contracts=["RecordTensor.insert[tensor]"], name="tensor insert: bypass inverted"),
     dict(file=_F, func="RecordTensor.select", old="math.ceil(offset), recordsz)", new="math.floor(offset), recordsz)", contracts=["RecordTensor.select[scalar]"], name="select: ceil->floor for the older bracket"),
     dict(file=_F, func="RecordTensor.select", old="fullc(data, dt - dt * (shift % 1), shape=data.shape[1:])", new="fullc(data, dt * (shift % 1), shape=data.shape[1:])", contracts=["RecordTensor.select[scalar]"]),
     dict(file=_F, func="RecordTensor.select", old="if abs(dt * round(shift) - time) <= tolerance:", new="if abs(dt * round(shift) - time) < tolerance:", contracts=["RecordTensor.select[scalar]"]),
